@@ -114,7 +114,8 @@ def hygId (sfx i : Str) : Bool :=
   endsWith (cN sfx i) ('.' :: sfx) &&
   endsWith (ncN i) ('.' :: sJson) &&
   !startsWith (cN sfx i) ncPrefix &&
-  !startsWith (ncN i) ncPrefix
+  !startsWith (ncN i) ncPrefix &&
+  sfx != sLog
 
 def hygPair (cfg : Cfg) (sfx i j : Str) : Bool :=
   (!dropMatch cfg (ncN i) (ncN j) || decide (ncN j = ncN i)) &&
